@@ -62,12 +62,27 @@ def judge(tree, style_kw=None):
     return None, None, got
 
 
+def scribble(d):
+    """edit every mutable part of a returned dictionary in place"""
+    if isinstance(d, dict):
+        for k, v in list(d.items()):
+            scribble(v)
+        d["zz_scribbled"] = "by the caller"
+    elif isinstance(d, list):
+        for v in d:
+            scribble(v)
+        d.append("scribbled")
+        if d:
+            d[0] = "scribbled" if not isinstance(d[0], (dict, list)) else d[0]
+
+
 def check(res, label, tree, style_name="canonical", style_kw=None):
     cat, msg, got = judge(tree, style_kw)
     res["evals"] += 1
     if cat is None:
         R.add_outcome(res, "conforms")
         res["states"].add(R.h64(D.typed(got)))
+        scribble(got)       # the returned dictionary is the caller's: editing it in place must not show up in any later result
         return True
     R.add_outcome(res, cat)
 
